@@ -2,6 +2,8 @@ package gsx
 
 import (
 	"fmt"
+	"go/ast"
+	"go/token"
 	"go/types"
 	"strings"
 
@@ -26,6 +28,8 @@ type G struct {
 	syncLine int
 	syncOcc  int
 	pendingDelay int // to be applied at the next synchronisation operation reached
+	spawnSeq     int  // value of the machine's synchronisation counter when the goroutine was created
+	firstCall    bool // has not yet entered a source-level function
 }
 
 type syncState struct {
@@ -59,7 +63,7 @@ func (m *Machine) sync(p *Value) *syncState {
 
 func (m *Machine) spawn(fn Value, args []Value, call *ssa.CallCommon) {
 	m.nextGID++
-	g := &G{id: m.nextGID, fn: fn, args: args, call: call, resume: make(chan struct{})}
+	g := &G{id: m.nextGID, fn: fn, args: args, call: call, resume: make(chan struct{}), spawnSeq: m.syncSeq, firstCall: true}
 	m.gs = append(m.gs, g)
 }
 
@@ -206,7 +210,7 @@ func (m *Machine) block(ready func() bool, what string) {
 // schedPoint is a potential preemption point (bounded by PreemptBound).
 func (m *Machine) schedPoint() {
 	m.noteSync()
-	if m.PreemptBound <= m.preempts {
+	if m.preemptOff || m.PreemptBound <= m.preempts {
 		return
 	}
 	others := m.runnableOthers()
@@ -233,6 +237,7 @@ func (m *Machine) noteSync() {
 	if m.cur == nil {
 		return
 	}
+	m.syncSeq++
 	pos := m.curPos
 	for f := m.curFrame; ; f = f.caller {
 		if pos.IsValid() {
@@ -257,6 +262,43 @@ func (m *Machine) noteSync() {
 		pos = f.callPos
 	}
 	m.cur.syncFile, m.cur.syncLine, m.cur.syncOcc = "", 0, 0
+}
+
+// noteEntry counts entries of repository / harness functions, and — when a spawned goroutine
+// enters its first such function only after others went on synchronising — records that the
+// native replay has to hold that goroutine back at the top of that function.
+func (m *Machine) noteEntry(fn *ssa.Function) {
+	if m.cur == nil || fn.Syntax() == nil {
+		return
+	}
+	var lb token.Pos
+	switch n := fn.Syntax().(type) {
+	case *ast.FuncDecl:
+		if n.Body != nil {
+			lb = n.Body.Lbrace
+		}
+	case *ast.FuncLit:
+		lb = n.Body.Lbrace
+	}
+	if !lb.IsValid() {
+		return
+	}
+	if m.entryCount == nil {
+		m.entryCount = map[*ssa.Function]int{}
+	}
+	m.entryCount[fn]++
+	g := m.cur
+	if !g.firstCall || g.id == 0 {
+		return
+	}
+	p := m.P.Fset.Position(lb)
+	if !strings.HasPrefix(p.Filename, "/repo/") || strings.Contains(p.Filename, "zz_verif_nd.go") {
+		return
+	}
+	g.firstCall = false
+	if m.syncSeq > g.spawnSeq {
+		m.delays = append(m.delays, DelaySite{File: p.Filename, Line: p.Line, Off: p.Offset + 1, Occ: m.entryCount[fn], Ms: 150})
+	}
 }
 
 func (m *Machine) addDelay(g *G, ms int) {
